@@ -7,6 +7,7 @@ TRANSLATORS = [
     ("LexFacts.lean", ["lexfacts"]),
     ("ConcFacts.lean", ["concfacts"]),
     ("ErrFacts.lean", ["errfacts"]),
+    ("MemoFacts.lean", ["memofacts"]),
 ]
 
 
